@@ -619,6 +619,36 @@ Proof.
     exists lp. split; [destruct lp; reflexivity|]. exact Ml.
 Qed.
 
+(* ---- FunctionPT (affine expression), represented by the two-entry linear table ---- *)
+Lemma value_err_ok {A} (r : result A) x : value_err r = Ok x -> r = Ok x.
+Proof. destruct r as [y|[]]; simpl; intro H; try discriminate; exact H. Qed.
+
+Lemma atom_sem2_func d c a b : atom_sem2 (AFunc d c a b).
+Proof.
+  intros s cm ow Hg Hb. change (build_func s cm d c a b = Ok ow) in Hb. unfold build_func in Hb.
+  simpl in Hg. simpl denote_atom.
+  destruct (cm c) as [m|]; [|inversion Hb; subst; exists None; split; [reflexivity|exact I]].
+  destruct (scope_force s) as [[]|e]; [|discriminate]. unfold bind in Hb at 1.
+  unfold evals in *. destruct (eval (lookup s) d) as [dv|e]; [|discriminate]. unfold bind in Hb at 1. unfold bind at 1.
+  destruct (value_err (eval (lookup s) a)) as [av|e] eqn:Ea; [|discriminate]. apply value_err_ok in Ea. rewrite Ea.
+  unfold bind in Hb at 1. unfold bind at 1.
+  destruct (value_err (eval (lookup s) b)) as [bv|e] eqn:Eb; [|discriminate]. apply value_err_ok in Eb. rewrite Eb.
+  unfold bind in Hb. unfold bind. rewrite Hg. apply Qltb'_true in Hg.
+  destruct (Qeq_bool bv 0) eqn:E0; inversion Hb; subst ow; eexists; (split; [reflexivity|]).
+  - (* no t left: a constant waveform *)
+    apply Qeq_bool_iff in E0. split.
+    + repeat split; simpl; auto; try reflexivity. intros ch t _ _ _. rewrite E0. ring.
+    + repeat split; simpl; auto. discriminate.
+  - apply Qeq_bool_false in E0. split.
+    + split; [reflexivity|]. split; [exact Hg|]. split; [intro ch; reflexivity|].
+      intros ch t Hin H0 H1. cbn [pdur] in H1. cbn [pval]. simpl wsample. unfold et, ev, ei. simpl.
+      assert (C1 : Qle_bool 0 t = true) by (apply Qle_bool_iff; exact H0).
+      assert (C2 : Qle_bool t dv = true) by (apply Qle_bool_iff; exact H1). rewrite C1, C2. simpl.
+      assert (C3 : Qeq_bool dv 0 = false) by (apply Qeq_bool_false; intro X; rewrite X in Hg; apply (Qlt_irrefl 0); exact Hg).
+      rewrite C3. simpl. rewrite !Qred_correct. field. intro X. rewrite X in Hg. apply (Qlt_irrefl 0). exact Hg.
+    + repeat split; simpl; auto. discriminate.
+Qed.
+
 (* ---- all atoms ---- *)
 Section atom_ind2.
   Variable P : atom -> Prop.
@@ -627,6 +657,7 @@ Section atom_ind2.
   Hypothesis Hp : forall es chs, P (APoint es chs).
   Hypothesis Hm : forall l, Forall P l -> P (AMulti l).
   Hypothesis Ha : forall l op r, P l -> P r -> P (AArith l op r).
+  Hypothesis Hf : forall d c a b, P (AFunc d c a b).
   Fixpoint atom_ind2 (a : atom) : P a :=
     match a with
     | AConst d amps => Hc d amps
@@ -635,6 +666,7 @@ Section atom_ind2.
     | AMulti l => Hm l ((fix go (l : list atom) : Forall P l :=
                            match l with [] => Forall_nil _ | x :: r => Forall_cons _ (atom_ind2 x) (go r) end) l)
     | AArith l op r => Ha l op r (atom_ind2 l) (atom_ind2 r)
+    | AFunc d c a b => Hf d c a b
     end.
 End atom_ind2.
 
@@ -646,6 +678,7 @@ Proof.
   - apply atom_sem2_simple. reflexivity.
   - apply atom_sem2_multi. exact H.
   - apply atom_sem2_arith; assumption.
+  - apply atom_sem2_func.
 Qed.
 
 Theorem atom_sem_all : forall a, atom_sem a.
